@@ -4,9 +4,9 @@ TECH = "TLA+ spec + TLC model checking; conformance: TLC-emitted cases replayed 
 
 HOOKS = {
     "guard": "pkgsrc_verif",
-    "enable": "no hooks are needed or present: the harness (harness/.cargo/config.toml) builds /repo with --cfg pkgsrc_verif, which no source line tests; every specification action is observed at the return of a public call",
+    "enable": "harness/.cargo/config.toml builds /repo (path dependency) with rustflags --cfg pkgsrc_verif; the only hook is Plist::verif_entries() (the private entry vector), every other specification action is observed at the return of a public call",
     "baseline_off_cmd": "cd /repo && cargo test --workspace --no-fail-fast --offline",
-    "source_commits": [],
+    "source_commits": ["c5ad7b4"],
     "add_only": True,
 }
 
@@ -56,5 +56,42 @@ CHECKS.update({
         "technique": TECH,
     },
 })
+
+def _e(text, ref, note):
+    return {"text": text, "design_ref": "DESIGN.md section 5, " + ref, "note": note, "technique": TECH}
+
+
+CHECKS.update({
+    "C07": _e("The pkg_summary entry is a TLA+ state machine (Summary.tla: SetVal/PushVal over the full 23-variable table, Render, Parse). TLC explores every set_/push_ history of depth 3/4 over a reduced table (TypeOK, print->parse and parse->print round trips, one line per value); 500/5000 simulated 40-call histories over the full table are replayed on three fresh Summary values each with all 23 getters, the printed text and is_completed() compared after every call; recorded random histories (two random call orders with overwritten noise) are validated call by call through the same machine.",
+              "C07", "Values without CR/LF and non-empty lists only (the statement's domain). Independence from HashMap iteration order is sampled on three instances per history, not proved."),
+    "C08": _e("Summary::from_str is transcribed (Parse) next to the declarative set of causes a text contains (Causes); TLC checks 'Ok iff no cause, Err names a cause' and the accumulate/last-wins rules on a canonical 23-variable entry under every single edit (quick) / pair of edits (thorough) and emits each text for the real parser; recorded random texts (shuffled, repeated, 0-2 faults, CRLF) are validated by TLC.",
+              "C08", "With several faults any present cause is accepted (the statement does not fix which is reported first)."),
+    "C09": _e("Two-level TLA+ specification (SummaryStream.tla): the property as a nondeterministic specification of which write outcomes are allowed, and the implemented algorithm (append, longest valid UTF-8 prefix, last separator, parse, drain) as a deterministic machine. TLC checks the refinement for every stream of <= 3/4 records over an abstract byte alphabet and EVERY partition into writes; simulated partitions are mapped to real pkg_summary bytes, run on the real SummaryStream and validated write by write; real streams are cut systematically (one call, byte-at-a-time, fixed sizes, every single cut, pairs of cuts) and every write is validated against Allowed with real entry validity (Summary!Parse).",
+              "C09", "Abstract alphabet for the exhaustive part; failure timing and invalid-UTF-8 streams are judged only as far as the statement fixes them (DESIGN.md)."),
+    "C10": _e("distinfo parsing (line classification, fold) and writing are TLA+ operators (Distinfo.tla). TLC checks write->parse = identity and parse->write = identity on every Distinfo value of <= 2/3 entries over names with sub-directories and bytes >= 0x80 (valid and invalid UTF-8), all six algorithms, sizes up to u64::MAX, and emits every canonical text for the real code; random canonical files and API-assembled values (insert/set_rcsid) are recorded and validated by TLC.",
+              "C10", "Names equal as paths but different as bytes are not generated; patch entries carry no size."),
+    "C11": _e("The fold over lines is checked by TLC against a declarative grouping (first-appearance order, checksums in line order, last size wins, patches apart, ignorable lines are no-ops) for every sequence of <= 3/4 lines over 26 line kinds, including every exception of the patch-file rule; each text is replayed on the real parser; random interleavings with names over arbitrary non-blank bytes are validated by TLC.",
+              "C11", "Truncated checksum lines and 'emul-patch-x' are not judged (ambiguous in the statement)."),
+    "C12": _e("The lookup loop of find_entry is a TLA+ machine checked equal to 'the shortest recorded trailing sub-path' for every path of <= 3/4 components and every set of <= 2/3 recorded names (trailing sub-paths, distractors sharing the tail); every configuration x contents x corruption (hash altered at hex position 1/9/32, hash of another file, patch hashed as plain file, size off by one) is materialised as real files, verified by the real code and validated by TLC: outcome kinds and carried expected/actual values. Hashes are interpreted by the oracle on the bytes the specification says are absorbed.",
+              "C12", "H is uninterpreted in TLC; the harness's claim of the absorbed bytes is validated against Digest!PatchFilter."),
+    "C13": _e("The read loop of hash_file/hash_patch is a TLA+ state machine (DigestReader.tla: Read(k), Interrupted, HardError, Eof; pending line buffer in patch mode). TLC checks 'absorbed bytes = reference, for every schedule' for all inputs of length <= 5/7 over {x, newline, $, N} with a two-symbol marker and all schedules of reads of 1..3 bytes; simulated schedules are mapped to real bytes and replayed through a scripted reader for all six algorithms; recorded random inputs x schedules are validated through the same machine. The clause 'equals the standard algorithm' is a differential known-answer test of the library and of the oracle against python hashlib (all six algorithms, lengths around every block boundary, 4 KiB, 70 KB).",
+              "C13", "TLC cannot evaluate the hash functions themselves; that clause is claimed at known-answer strength only."),
+    "C14": _e("The four-index line scanner of Plist::from_bytes is transcribed into TLA+ and checked by TLC against 'maximal newline-free segments containing a non-blank byte' for every byte string of length <= 7/9 over {a, space, tab, newline, @}; the command table with its argument rules is a TLA+ table; strings of length <= 6/7 and every command word x 12 argument classes are replayed on the real list parser and single-line parser; recorded random lists are validated by TLC including 'each entry = the line parsed alone'. The private entry vector is observed through the guarded hook Plist::verif_entries().",
+              "C14", "Lines/arguments where 'blank' is ambiguous (bytes 0B 0C 0D 85 A0) are not judged; error kinds are not compared."),
+    "C15": _e("The twelve queries are stated declaratively in TLA+ from the property's sentence and, separately, as the four implemented one-pass loops with an ignore flag and a prefix; TLC checks them equal (and that all views list the same files) for every sequence of <= 3/5 entries over 18 entry kinds; sequences of <= 3/4 entries are rendered to PLIST text and all queries compared on the real code; recorded random lists of <= 60 entries are validated by TLC.",
+              "C15", "Bounded enumeration plus seeded random lists."),
+    "C16": _e("ScanIndex::from_reader is a TLA+ reader machine (StepLine / StepIoError / StepEof) checked by TLC against a declarative block reading for every sequence of <= 3/4 lines over 15 line kinds with an I/O error injected at every position; each behaviour is replayed through a scripted reader with all public fields compared; recorded random files (record-tagged values so that leakage between neighbouring records is visible, faults, I/O errors) are validated line by line through the machine.",
+              "C16", "Lines with blanks between key and '=' and invalid UTF-8 are outside the judged domain."),
+    "C17": _e("Termination of the specification's machines is a TLC action property (strictly increasing indices). Every entry point of the statement is driven with hostile inputs (mutated valid documents, huge numbers, NUL, invalid UTF-8, long runs) under catch_unwind and a per-call watchdog; TLC validates every recorded outcome: returned normally with an outcome of the allowed shape. Every other property's check treats a panic or hang as a mismatch as well.",
+              "C17", "Absence of panics is sampled (6k/60k hostile calls per run plus all calls of the other checks), not proved; brace nesting is capped."),
+    "C18": _e("PkgName's split, the Summary accessors and the matcher's own split are TLA+ operators; TLC checks losslessness, 'reported revision = the revision the tokeniser uses' and 'a name matches the pattern built from its own split' for every concatenation of <= 5/6 tokens over {a n b nb 1 2 - .}, and replays each on the real code; recorded random names carry probe patterns that pin the revision the real comparison uses, validated by TLC.",
+              "C18", "The reported revision is judged for versions without 'nb' and versions ending in nb<digits>."),
+    "C19": _e("Rust's Path::components and PkgPath::new / Depend::new are TLA+ operators; TLC checks accept <=> the statement's two forms, equality of both spellings and the re-parse fixpoint for every path of <= 4/6 segments over {.. . a b empty} and every dependency string of <= 3/4 parts, replays each on the real code (component-wise), and validates recorded random inputs.",
+              "C19", "Bounded enumeration plus seeded random strings."),
+    "C20": _e("Database iteration is specified over directory configurations (which entries are valid packages, how names split) and Metadata as a state machine (ReadMetadata over the 14-entry table); TLC enumerates every database of <= 2/3 entries and every read history of <= 2/3 calls, the harness materialises each as a real directory tree / call sequence and compares (multisets, every +FILE read back); recorded random trees and histories are validated by TLC; the file-name bijection is an ASSUME checked by TLC and probed both ways on the code.",
+              "C20", "File-system faults and non-UTF-8 directory names are outside the stated quantifiers."),
+    "C18b": None,
+})
+CHECKS.pop("C18b")
 
 NOT_APPLICABLE = {}
